@@ -199,7 +199,9 @@ const (
 	pushData4
 )
 
-func (p pushStyle) String() string { return [...]string{"min", "PUSHDATA1", "PUSHDATA2", "PUSHDATA4"}[p] }
+func (p pushStyle) String() string {
+	return [...]string{"min", "PUSHDATA1", "PUSHDATA2", "PUSHDATA4"}[p]
+}
 
 func pushData(out []byte, b []byte, st pushStyle) []byte {
 	n := len(b)
@@ -234,11 +236,11 @@ func pushData(out []byte, b []byte, st pushStyle) []byte {
 type numStyle int
 
 const (
-	numOp      numStyle = iota // PUSH0 / PUSH1..PUSH16 (canonical)
-	numBytes1                  // PUSHBYTES1 v
-	numBytesBE2                // PUSHBYTES2 00 v   (big-endian zero padded)
-	numBytesLE2                // PUSHBYTES2 v 00   (little-endian zero padded)
-	numData1                   // PUSHDATA1 01 v
+	numOp       numStyle = iota // PUSH0 / PUSH1..PUSH16 (canonical)
+	numBytes1                   // PUSHBYTES1 v
+	numBytesBE2                 // PUSHBYTES2 00 v   (big-endian zero padded)
+	numBytesLE2                 // PUSHBYTES2 v 00   (little-endian zero padded)
+	numData1                    // PUSHDATA1 01 v
 )
 
 func (s numStyle) String() string {
